@@ -153,9 +153,51 @@ def exhaustive(chk, P):
                 n += 1
                 if node.attr in ("__wrapped__", "raw_config_parser", "_config_parser"):
                     bad.append("%s:%d .%s" % (m.relpath, node.lineno, node.attr))
+            # the generic section reader of ConfigParser returns *unfiltered* entries unless the filter overrides it: it may be
+            # used for sections the filter does not cover (ADP dipoles/quadrupoles) but not for the filtered ones
+            if isinstance(node, ast.Call) and isinstance(node.func, ast.Attribute) and node.func.attr in ("parse_pair_like", "_parse_params_section"):
+                ov = node.func.attr in fcp.methods
+                sec = node.args[0] if node.args else None
+                secs = _section_constants(m, node, sec)
+                if not ov and (secs is None or any(x in ("Pair", "EAM-Embed", "EAM-Density") for x in secs)):
+                    bad.append("%s:%d .%s(%s) reads a filtered section without going through the filter" % (
+                        m.relpath, node.lineno, node.func.attr, ast.unparse(sec) if sec is not None else ""))
     chk.ob("C13.O3", "builders, factories and the tabulate action never reach behind the filter (%d attribute accesses inspected)" % n,
            not bad, site="atsim/potentials/config", found=bad or None, expect="no __wrapped__/raw_config_parser/_config_parser access",
            key="C13.O3|no-bypass")
+
+
+def _section_constants(m, call, sec, depth=3):
+    """the string constants a section-name argument can take: a literal, or a parameter of the enclosing function
+    that every call of that function in the module supplies as a literal (followed through up to three functions)"""
+    if isinstance(sec, ast.Constant) and isinstance(sec.value, str):
+        return [sec.value]
+    if not isinstance(sec, ast.Name) or depth == 0:
+        return None
+    owner = None
+    for fn in ast.walk(m.tree):
+        if isinstance(fn, ast.FunctionDef) and any(n is call for n in ast.walk(fn)):
+            if owner is None or any(n is fn for n in ast.walk(owner)):
+                owner = fn
+    if owner is None:
+        return None
+    params = [a.arg for a in owner.args.args]
+    if sec.id not in params:
+        return None
+    idx = params.index(sec.id)
+    out = []
+    ncalls = 0
+    for n in ast.walk(m.tree):
+        if isinstance(n, ast.Call) and ((isinstance(n.func, ast.Name) and n.func.id == owner.name)
+                                        or (isinstance(n.func, ast.Attribute) and n.func.attr == owner.name)):
+            ncalls += 1
+            pos = idx - 1 if (isinstance(n.func, ast.Attribute) and params and params[0] in ("self", "cls")) else idx
+            arg = n.args[pos] if 0 <= pos < len(n.args) else next((k.value for k in n.keywords if k.arg == sec.id), None)
+            sub = _section_constants(m, n, arg, depth - 1) if arg is not None else None
+            if sub is None:
+                return None
+            out.extend(sub)
+    return out if ncalls else None
 
 
 def isolation(chk, P):
